@@ -15,7 +15,7 @@ import labtech
 from . import oracles as O
 from . import probe as probe_mod
 from .choices import Choices
-from .execute import Rec, execute, probe_load, quiet_logger, restore_logger
+from .execute import Rec, _LoadProbe, execute, probe_load, quiet_logger, restore_logger
 from .props import Check, compact_spec, result_record
 from .spec import Built, Ref, base_context
 from .tasklib import get_type
@@ -82,6 +82,44 @@ def cache_state_violations(prop: str, sc: dict, storage_dir: str, cfg: dict, whe
     if cached:
         return [O.V(prop, 'cached-but-executed', f'{state}, yet a later run executed the task instead of loading it',
                     mode=cfg['mode'], **where)]
+    return []
+
+
+def same_lab_violations(prop: str, sc: dict, session: dict, out, cfg: dict, where: dict) -> list:
+    """The same observations through the very Lab, Storage and task objects that performed the failed
+    save (what a user sees who carries on in the same session)."""
+    lab = session.get('lab')
+    if lab is None or out.built is None:
+        return []
+    t = out.built.requested[0]
+    rec = Rec()
+    saved = quiet_logger(rec)
+    try:
+        try:
+            cached = bool(lab.is_cached(t))
+            listed = [x for x in lab.cached_tasks([get_type(cfg['tname'])]) if x == t]
+        except Exception as ex:
+            return [O.V(prop, 'same-lab-observe-raises', f'in the same session: is_cached / cached_tasks raised {type(ex).__name__}: '
+                        f'{str(ex)[:120]}', mode=cfg['mode'], **where)]
+        if not cached and not listed:
+            return []
+        lp = _LoadProbe()
+        old = probe_mod.ACTIVE
+        probe_mod.set_active(lp)
+        try:
+            lab.continue_on_failure = False
+            from labtech.runners import SerialRunnerBackend
+            lab.runner_backend = SerialRunnerBackend()      # outside the simulation only the serial backend may be used
+            try:
+                lab.run_task(t, disable_progress=True, disable_top=True)
+            except BaseException as ex:
+                return [O.V(prop, 'cached-but-unloadable', f'in the same session (same Lab / storage / cache objects): is_cached={cached} '
+                            f'cached_tasks lists it={bool(listed)}, but running the task fails: {type(ex).__name__}: {str(ex)[:120]}',
+                            mode=cfg['mode'], same_session=True, **where)]
+        finally:
+            probe_mod.set_active(old)
+    finally:
+        restore_logger(saved)
     return []
 
 
@@ -152,8 +190,9 @@ class C12(EnumCheck):
         elif f['kind'] == 'line':
             sc['inject_line'] = {'index': f['index']}
         d = tempfile.mkdtemp(dir=workdir)
+        session: dict = {}
         try:
-            out = execute(sc, Choices(seed='c12'), d)
+            out = execute(sc, Choices(seed='c12'), d, session=session)
             fired = bool(out.fault_counts.get('io-error') or out.fault_counts.get('line-exception'))
             intrinsic = cfg['shape'] == 'unpicklable'
             where = {'fault': f['kind'] if f['kind'] != 'none' else ('unpicklable-result' if intrinsic else 'none')}
@@ -176,7 +215,12 @@ class C12(EnumCheck):
                     vs.append(O.V('C12', 'control-not-cached', 'fault-free control run did not cache the task'))
             else:
                 vs += cache_state_violations('C12', sc, d, cfg, where)
+                if not vs:
+                    vs += same_lab_violations('C12', sc, session, out, cfg, where)
         finally:
+            st = session.get('sim_storage')
+            if st is not None:
+                st.release()
             shutil.rmtree(d, ignore_errors=True)
         return self.record_case(sc, out, vs, case, fired or intrinsic)
 
